@@ -108,20 +108,38 @@ class Pool:
             w.q.put(None)
 
 
+# model values are integers; the real Settings object gets these Python values (None, False/0 and
+# True/1 are equal-but-not-identical pairs: a restore that compares with == or tests truthiness fails)
+PYVAL = {0: 0, 1: 1, 2: None, 3: False, 4: True, 5: ""}
+VPAIRS = [(0, 1), (2, 1), (0, 2), (3, 0), (4, 1), (2, 3), (5, 2), (1, 4)]
+BASES = ["ints", 2, 0, 1, 3]
+
+
+def py(v):
+    return PYVAL.get(v, v)
+
+
+def code(x):
+    for k, v in PYVAL.items():
+        if type(v) is type(x) and v == x:
+            return k
+    return x
+
+
 class RealRun:
     """one Settings object driven by the case's threads"""
 
     def __init__(self, names, base, nthreads):
         zs, _ = _zeep()
         self.names = names
-        self.s = zs.Settings(**{n: b for n, b in zip(names, base)})
+        self.s = zs.Settings(**{n: py(b) for n, b in zip(names, base)})
         self.cms = [[] for _ in range(nthreads)]
 
     def opfn(self, t, op):
         s, names, cms = self.s, self.names, self.cms[t]
         kind = op[0]
         if kind == "enter":
-            opts = {names[int(k)]: v for k, v in op[1]}
+            opts = {names[int(k)]: py(v) for k, v in op[1]}
 
             def f():
                 cm = s(**opts)
@@ -145,9 +163,9 @@ class RealRun:
                     raise AssertionError("exception swallowed by the settings block")
             return f
         if kind == "assign":
-            return lambda: setattr(s, names[op[1]], op[2])
+            return lambda: setattr(s, names[op[1]], py(op[2]))
         if kind == "read":
-            return lambda: getattr(s, names[op[1]])
+            return lambda: code(getattr(s, names[op[1]]))
         raise ValueError(kind)
 
 
@@ -314,6 +332,22 @@ def histories(tracked, maxlen):
                 yield from rec(prefix, depth)
                 prefix.pop()
     yield from rec([], 0)
+
+
+def rename(h, ren, vren):
+    out = []
+    for op in h:
+        if op[0] == "enter":
+            out.append(["enter", [[ren[k], vren[v]] for k, v in op[1]]])
+        elif op[0] == "assign":
+            out.append(["assign", ren[op[1]], vren[op[2]]])
+        else:
+            out.append(list(op))
+    return out
+
+
+def make_base(n, kind):
+    return [10 + i for i in range(n)] if kind == "ints" else [kind] * n
 
 
 def interleavings(n0, n1):
@@ -509,7 +543,7 @@ def run(ctx):
     pool = Pool(2)
     rng = ctx.rng
     try:
-        base = [10 + i for i in range(n)]
+        base = make_base(n, "ints")
         # 0. corpus (minimised past failures) first
         for name, c in corpus_cases("C13"):
             if c.get("kind") == "transport":
@@ -522,22 +556,14 @@ def run(ctx):
             L = 5
         pairs = [(i, (i + 1) % n) for i in range(n)]
         batch = []
-        hs = list(histories((0, 1), L))
+        hs = [h for h in histories((0, 1), L) if h]
         for hi, h in enumerate(hs):
-            if not h:
-                continue
             a, b = pairs[hi % len(pairs)]
-            # rename options 0/1 of the template to the tracked pair
-            ren = {0: a, 1: b}
-            prog = []
-            for op in h:
-                if op[0] == "enter":
-                    prog.append(["enter", [[ren[k], v] for k, v in op[1]]])
-                elif op[0] == "assign":
-                    prog.append(["assign", ren[op[1]], op[2]])
-                else:
-                    prog.append(list(op))
-            batch.append(dict(base=base, progs=[prog], schedule=[0] * len(prog), tracked=[a, b]))
+            # every history runs with plain ints and with one rotating equal-but-not-identical value pair / base
+            variants = [((0, 1), "ints"), (VPAIRS[hi % len(VPAIRS)], BASES[(hi // len(VPAIRS)) % len(BASES)])]
+            for (v0, v1), bk in variants:
+                prog = rename(h, {0: a, 1: b}, {0: v0, 1: v1})
+                batch.append(dict(base=make_base(n, bk), progs=[prog], schedule=[0] * len(prog), tracked=[a, b]))
         res.extra["single_thread_histories"] = len(batch)
         res.extra["single_thread_maxlen"] = L
         check_cases(ctx, res, names, batch, pool)
@@ -549,20 +575,12 @@ def run(ctx):
             h0 = rng.choice(short)
             h1 = rng.choice(short)
             a, b = rng.sample(range(n), 2)
-            ren = {0: a, 1: b}
-
-            def rn(h):
-                out = []
-                for op in h:
-                    if op[0] == "enter":
-                        out.append(["enter", [[ren[k], v] for k, v in op[1]]])
-                    elif op[0] == "assign":
-                        out.append(["assign", ren[op[1]], op[2]])
-                    else:
-                        out.append(list(op))
-                return out
+            vp = rng.choice(VPAIRS)
+            bk = rng.choice(BASES)
+            ren, vren = {0: a, 1: b}, {0: vp[0], 1: vp[1]}
             for sched in interleavings(len(h0), len(h1)):
-                batch.append(dict(base=base, progs=[rn(h0), rn(h1)], schedule=sched, tracked=[a, b]))
+                batch.append(dict(base=make_base(n, bk), progs=[rename(h0, ren, vren), rename(h1, ren, vren)],
+                                  schedule=sched, tracked=[a, b]))
         res.extra["two_thread_runs"] = len(batch)
         check_cases(ctx, res, names, batch, pool)
         # 3. two threads interleaved at source-line granularity inside Settings.__call__
@@ -572,22 +590,13 @@ def run(ctx):
             h0 = rng.choice(short)
             h1 = rng.choice(short)
             a, b = rng.sample(range(n), 2)
-            ren = {0: a, 1: b}
-
-            def rn2(h):
-                out = []
-                for op in h:
-                    if op[0] == "enter":
-                        out.append(["enter", [[ren[k], v] for k, v in op[1]]])
-                    elif op[0] == "assign":
-                        out.append(["assign", ren[op[1]], op[2]])
-                    else:
-                        out.append(list(op))
-                return out
+            vp = rng.choice(VPAIRS)
+            bk = rng.choice(BASES)
+            ren, vren = {0: a, 1: b}, {0: vp[0], 1: vp[1]}
             sched = rng.choice(list(interleavings(len(h0), len(h1))))
             picks = [rng.randrange(2) for _ in range(40)]
-            batch.append(dict(base=base, progs=[rn2(h0), rn2(h1)], schedule=sched, tracked=[a, b],
-                              fine=True, fine_picks=picks, fine_steps=[]))
+            batch.append(dict(base=make_base(n, bk), progs=[rename(h0, ren, vren), rename(h1, ren, vren)],
+                              schedule=sched, tracked=[a, b], fine=True, fine_picks=picks, fine_steps=[]))
         res.extra["line_granularity_runs"] = len(batch)
         check_cases(ctx, res, names, batch, pool)
         # 4. Transport.settings
